@@ -117,6 +117,30 @@ def run(ctx):
                     viol(f"{filt}/slope-after-grid-shift", f"{filt}: after update({chg}) (same number of mass bins) the slope differs from a fresh object's by up to {dev_:.3g}: it is no longer the slope of the sigma the object returns",
                          {"filter": filt, "sequence": f"MassFunction(Mmin=12, Mmax=15, dlog10m=0.05, filter_model={filt!r}); dndm; update({chg})"})
                     break
+        # every fitting function is handed the framework's arrays (m, nu^2, n_eff, ...) by reference: evaluating it first must leave the
+        # slope quantities those of an object that never evaluated a fit — on a grid reaching dwarf masses (n_eff close to -3)
+        from hmf.mass_function import fitting_functions as ff_
+        kwr = dict(transfer_model="EH", lnk_min=-14.0, lnk_max=16.0, dlnk=0.05, Mmin=3.0, Mmax=15.0, dlog10m=0.25)
+        ref = MassFunction(**kwr)
+        refq = {q: np.array(getattr(ref, q)) for q in ("n_eff", "_dlnsdlnm", "sigma", "nu", "m")}
+        for name_ in sorted(ff_.FittingFunction._plugins):
+            for zf in (0.0, 2.0):
+                try:
+                    mfr = MassFunction(hmf_model=name_, z=zf, **kwr)
+                    mfr.fsigma
+                    mfr.dndm
+                except Exception:
+                    continue
+                ncase += 1
+                for q in ("n_eff", "_dlnsdlnm", "m"):
+                    if not np.array_equal(np.asarray(getattr(mfr, q)), refq[q]):
+                        dev_ = float(np.nanmax(np.abs(np.asarray(getattr(mfr, q)) - refq[q])))
+                        viol(f"slope/modified-in-place/{name_}", f"hmf_model={name_}, z={zf}: after fsigma and dndm were read, {q} differs from the value on an object that evaluated no fit (max abs dev {dev_:.3g}); "
+                             "n_eff is no longer -3(2 dln sigma/dln m + 1) of the sigma the object returns",
+                             {"hmf_model": name_, "z": zf, "quantity": q, "sequence": f"MassFunction(hmf_model={name_!r}, Mmin=3, ...); fsigma; dndm; {q}"})
+                        break
+                if zf == 0.0 and not np.allclose(mfr.n_eff, -3 * (2 * mfr._dlnsdlnm + 1), rtol=1e-13):
+                    viol(f"n_eff-identity/after-fit/{name_}", f"hmf_model={name_}: after the fit was evaluated n_eff != -3(2 dlnsigma/dlnm + 1)", {"hmf_model": name_})
     out["coverage"] = {
         "evaluations": ncase, "distinct_nontrivial": ncase,
         "rule": "window derivatives on 1500 arguments per differentiable window plus 40 small arguments; slopes for random (transfer model, z, cosmology) x all four filters on fine grids (dlnk=0.02, dlog10m=0.01), interior masses; n_eff identity on fresh objects and after dndm / direct assignment sequences",
